@@ -116,6 +116,25 @@ def m_one_point(cx, obj, tag):
     obj.ctrlpts = pts
 
 
+def m_edit_getter_list(cx, obj, tag):
+    """read-modify-write on the list handed out by the getter itself (no copy)"""
+    d = cx.real('d' + tag)
+    pts = obj.ctrlpts
+    new_pt = list(pts[1])
+    new_pt[0] = new_pt[0] + d + 1
+    pts[1] = new_pt
+    obj.ctrlpts = pts
+
+
+def m_edit_getter_listw(cx, obj, tag):
+    d = cx.real('d' + tag)
+    pts = obj.ctrlptsw
+    new_pt = list(pts[2])
+    new_pt[0] = new_pt[0] + d + 1
+    pts[2] = new_pt
+    obj.ctrlptsw = pts
+
+
 def m_knotvector(cx, obj, tag):
     if obj.pdimension == 1:
         kv = list(obj.knotvector)
@@ -281,6 +300,8 @@ MUTATORS = {
     'weights=': (m_weights, (1, 2, 3), True),
     'ctrlptsw=': (m_ctrlptsw, (1, 2, 3), True),
     'move_one_point': (m_one_point, (1, 2, 3), None),
+    'edit_list_from_getter': (m_edit_getter_list, (1, 2, 3), None),
+    'edit_ctrlptsw_list_from_getter': (m_edit_getter_listw, (1, 2, 3), True),
     'knotvector=': (m_knotvector, (1, 2), None),
     'sample_size=': (m_sample_size, (1, 2, 3), None),
     'delta=': (m_delta, (1, 2, 3), None),
@@ -420,6 +441,14 @@ def h_container(cx, rational, scenario):
         compare(cx, 'source_unchanged', agg(mc), a0)
         geo.M('operations').translate(cp, cx.reals('tt', 2), inplace=True)
         cx.eq('source_element_unchanged', [list(p) for p in mc[0].ctrlpts], [list(p) for p in c1.ctrlpts])
+    elif scenario == 'failed_batch_add':
+        # a batch add whose later element is rejected: the accepted ones must be reflected in the aggregate
+        bad = geo.make_curve(cx, 2, cx.consts(sp['kvs'][0]), cx.points('B', 4, 3), None, normalize_kv=True)
+        try:
+            mc.add([c2, bad])
+        except Exception:
+            pass
+        compare(cx, 'after_failed_batch', agg(mc), agg(fresh_container(list(mc))))
     elif scenario == 'add_list':
         mc.add([c2])
         compare(cx, 'after_add_list', agg(mc), agg(fresh_container([c1, c2])))
@@ -450,7 +479,7 @@ def instances(tier):
             if applicable(m, sp):
                 out.append(inst('%s bbox [%s]' % (spec_name(sp), m), h_bbox, timeout=1200, sp=sp, mut=m))
     for rational in (False, True):
-        for sc in ('add', 'edit_element', 'sample_size', 'add_list', 'deepcopy'):
+        for sc in ('add', 'edit_element', 'sample_size', 'add_list', 'deepcopy', 'failed_batch_add'):
             out.append(inst('container %s %s' % ('rat' if rational else 'nonrat', sc), h_container, timeout=900, rational=rational, scenario=sc))
     if not quick:
         pair_muts = ['ctrlpts=', 'weights=', 'ctrlptsw=', 'knotvector=', 'sample_size=', 'insert_knot', 'remove_knot', 'refine_knotvector',
